@@ -148,6 +148,12 @@ fn mask(rows: &[String], known: &std::collections::HashSet<String>) -> Vec<Strin
                 s.push(ch);
                 i += ch.len_utf8();
             }
+            // the snapshot time is stamped by each execution itself
+            if let Some(i) = s.find("snapshot_timestamp=i") {
+                let start = i + "snapshot_timestamp=i".len();
+                let end = s[start..].find(|c: char| !c.is_ascii_digit() && c != '-').map(|e| start + e).unwrap_or(s.len());
+                s.replace_range(start..end, "<time>");
+            }
             s
         })
         .collect();
@@ -164,6 +170,8 @@ pub fn shard_run(tier: &str, seed: u64, replay_case: Option<usize>, shard: Shard
     let mut out = ShardOut::default();
     let mut cov = Cov::default();
     let n_hist = if thorough { 600 } else { 72 };
+    let vfs_ok = crate::vfs::register().is_ok();
+    let mut vcase = 0usize;
     let prof = GenProfile { min_clients: 2, max_clients: 2, min_ops: 10, max_ops: if thorough { 26 } else { 20 }, valid_add_pct: 75, w_kind: [40, 14, 26, 15, 5], big_payload_pct: 8, ..Default::default() };
     for hi in 0..n_hist {
         match replay_case {
@@ -377,6 +385,93 @@ pub fn shard_run(tier: &str, seed: u64, replay_case: Option<usize>, shard: Shard
                         }
                     }
                 }
+                // ---- layer 2: faults inside SQLite's own I/O (VFS shim), through its real error paths
+                if vfs_ok {
+                    use crate::vfs::{self, FaultKind, FaultSpec};
+                    // learn how many operations of each kind the request performs
+                    let counts: Vec<(FaultKind, u64, Vec<i32>)> = {
+                        let s = match open_copy(img.path(), kind, &hook) {
+                            Ok(s) => s,
+                            Err(_) => continue,
+                        };
+                        let mut s = s;
+                        hook.reset(-1, false);
+                        vfs::start_recording();
+                        let _ = s.exec(cid, &req);
+                        drop(s);
+                        let log = vfs::stop_recording();
+                        let n = |k: &str| log.iter().filter(|e| e.kind() == k).count() as u64;
+                        vec![
+                            (FaultKind::Write, n("write"), vec![778, 13]),
+                            (FaultKind::Sync, n("sync"), vec![1034]),
+                            (FaultKind::Truncate, n("truncate"), vec![1546]),
+                            (FaultKind::Open, n("open"), vec![14]),
+                            (FaultKind::Delete, n("delete"), vec![2570]),
+                            (FaultKind::Read, 12, vec![266]),
+                            (FaultKind::Lock, 6, vec![5, 3850]),
+                        ]
+                    };
+                    for (fk, n, codes) in counts {
+                        for nth in 0..n {
+                            for code in &codes {
+                                vcase += 1;
+                                let stride = if thorough { 1 } else { 5 };
+                                if vcase % stride != 0 {
+                                    continue;
+                                }
+                                let mut s = match open_copy(img.path(), kind, &hook) {
+                                    Ok(s) => s,
+                                    Err(_) => continue,
+                                };
+                                hook.reset(-1, false);
+                                vfs::start_recording();
+                                vfs::arm(Some(FaultSpec { kind: fk, nth, code: *code }));
+                                let r = s.exec(cid, &req);
+                                let fired = vfs::fired();
+                                vfs::arm(None);
+                                let _ = vfs::stop_recording();
+                                cov.evaluations += 1;
+                                out.executed += 1;
+                                if fired.is_none() {
+                                    cov.count("vfs_fault_sites_not_reached", 1);
+                                    continue;
+                                }
+                                let after_state = state(&s);
+                                let eq_pre = normalized(&after_state) == normalized(&pre);
+                                let eq_post = mask(&normalized(&after_state), &known_ids) == mask(&normalized(&post), &known_ids);
+                                let success = !matches!(r, Resp::Error(_));
+                                cov.hit(format!("vfs|{}|{}|{fk:?}|code{code}|{}|state={}", kind.name(), req.name(), if success { "success" } else { "error" }, if eq_pre && eq_post { "unchanged" } else if eq_pre { "pre" } else if eq_post { "post" } else { "OTHER" }));
+                                let ctx = format!("[{}] {} (request #{oi} of history {hi}) with SQLite's {fk:?} operation #{nth} failing with code {code} ({})", kind.name(), req.name(), fired.as_ref().map(|f| f.1.clone()).unwrap_or_default());
+                                let mut bad: Option<String> = None;
+                                if let Resp::Error(e) = &r {
+                                    if e.contains("panic") {
+                                        bad = Some(format!("{ctx}: the server panicked: {e}"));
+                                    }
+                                }
+                                if bad.is_none() && success && !eq_post {
+                                    bad = Some(format!("{ctx}: the client received {} although the change was not committed (state equals the state before the request: {eq_pre})", r.short()));
+                                }
+                                if bad.is_none() && !success && !(eq_pre || eq_post) {
+                                    bad = Some(format!("{ctx}: the request failed and stored state is neither as before nor as after the request"));
+                                }
+                                if bad.is_none() {
+                                    let p1 = s.exec(cid, &Req::GetChild { parent: Uuid::nil() });
+                                    let p2 = s.exec(cid, &Req::GetSnapshot);
+                                    for p in [&p1, &p2] {
+                                        if let Resp::Error(e) = p {
+                                            bad = Some(format!("{ctx}: a later un-faulted request failed: {e}"));
+                                        }
+                                    }
+                                }
+                                if let Some(m) = bad {
+                                    out.found.push(Found { property: "C05".into(), signature: format!("C05:vfs {}", m.split(": ").last().unwrap_or("").split_whitespace().take(8).collect::<Vec<_>>().join(" ")), msg: m, replay: json!({"origin": "c05-vfs", "case": hi * 100_000 + oi * 1000, "fault": format!("{fk:?} #{nth} code {code}")}) });
+                                    out.cov = cov;
+                                    return out;
+                                }
+                            }
+                        }
+                    }
+                }
                 reqs_flat.push((oi, req));
             }
         }
@@ -392,13 +487,13 @@ pub fn finalize(out: ShardOut, is_replay: bool) -> CheckResult {
     let coverage = json!({
         "evaluations": cov.evaluations,
         "distinct_nontrivial": cov.situations.len(),
-        "rule": "for every request of generated histories on the SQLite backend (library and HTTP handlers) the sequence of storage calls (begin, reads, writes, commit) is learned on a copy of the data directory; then for every call index and both modes (fail before taking effect / fail after taking effect) the directory image is restored and the request re-run with that call failing. Oracle: the client gets an error (never a success, never a panic); all SQL rows equal the pre-state (or the post-state when the failing call was commit-after-effect; an empty client record is identified with an absent client); begun == released transactions at return; follow-up requests succeed; thorough adds a second fault in the follow-up. distinct_nontrivial = distinct (subject, request, failing call, mode, outcome).",
+        "rule": "for every request of generated histories on the SQLite backend (library and HTTP handlers) the sequence of storage calls (begin, reads, writes, commit) is learned on a copy of the data directory; then for every call index and both modes (fail before taking effect / fail after taking effect) the directory image is restored and the request re-run with that call failing. Oracle: the client gets an error (never a success, never a panic); all SQL rows equal the pre-state (or the post-state when the failing call was commit-after-effect; an empty client record is identified with an absent client); begun == released transactions at return; follow-up requests succeed; thorough adds a second fault in the follow-up. Layer 2: the same requests are re-run with the n-th xWrite / xSync / xTruncate / xOpen / xDelete / xRead / xLock of SQLite itself failing (IOERR_*, FULL, CANTOPEN, BUSY) through a VFS shim, so that the error travels through SQLite's and rusqlite's real error paths; oracle: success only with the post-state, failure only with the pre- or post-state, later requests served. distinct_nontrivial = distinct (subject, request, failing call, mode, outcome).",
         "samples": cov.samples,
         "injections": out.executed,
         "counters": cov.counters,
         "situations_top": top.iter().take(40).map(|(k, v)| json!({"situation": k, "n": v})).collect::<Vec<_>>(),
     });
-    let required = ["AddVersion|Commit|After", "AddVersion|Commit|Before", "AddVersion|AddVersion|", "AddSnapshot|SetSnapshot|", "AddSnapshot|GetVersion|", "GetChildVersion|GetVersionByParent|", "AddVersion|NewClient|", "GetSnapshot|GetSnapshotData|", "|Begin|"];
+    let required = ["vfs|", "|Write|code778|error|", "|Sync|code1034|", "AddVersion|Commit|After", "AddVersion|Commit|Before", "AddVersion|AddVersion|", "AddSnapshot|SetSnapshot|", "AddSnapshot|GetVersion|", "GetChildVersion|GetVersionByParent|", "AddVersion|NewClient|", "GetSnapshot|GetSnapshotData|", "|Begin|"];
     let verdict = if !out.found.is_empty() {
         Verdict::Violated(out.found)
     } else if !out.errors.is_empty() {
